@@ -4,7 +4,7 @@ against DestinationTrace.tla (TLC decides; the driver only records)."""
 import copy, json, os, random
 from vlib.core import Machinery
 
-ALL_MODES = {"absent", "blackhole", "slow", "healthy", "closing"}
+ALL_MODES = {"absent", "blackhole", "slow", "healthy", "closing", "paused"}
 KEEPSAFE_MS = 4000
 
 
@@ -48,7 +48,7 @@ def project(events):
             add(dict(ev="scn", scn=e["scn"]), e)
         elif k in ("up", "down", "cut"):
             add(dict(ev=k, inc=e["inc"]), e)
-        elif k == "info" or k == "gate":
+        elif k in ("info", "gate", "dsgate", "stall"):
             add(dict(ev="info"), e)
         elif k == "lat":
             add(dict(ev="lat", max_us=min(e["max_us"], 2_000_000_000), over_bound=e["over_bound"], stuck=e["stuck"], calls=e["calls"]), e)
@@ -178,6 +178,13 @@ def c06_scenarios(ctx):
             scns.append(dict(id=sid, kind=kind, route=rng.choice(["all", "first"]) if kind != "healthy" else "all",
                              connbuf=cb, iobuf=iob, flush_ms=fl, lines=n, linelen=ll,
                              rcvbuf=rng.choice([2048, 8192]), close_after=rng.choice([1000, 20000, 200000]), switches=[]))
+    # stall-resume: accepts, reads normally, stops reading for many flush periods (connection stays open; conn.In, io
+    # buffer and kernel buffers fill, the writer is blocked), then resumes and reads to the end.  Never closes.
+    for (cb, iob, fl) in sizes:
+        sid += 1
+        scns.append(dict(id=sid, kind="stall", route="all", connbuf=cb, iobuf=iob, flush_ms=fl,
+                         lines=max(lines if iob > 8 else lines // 2, 8 * (cb + iob // 200 + 3000)), linelen=200,
+                         rcvbuf=rng.choice([2048, 8192]), close_after=0, stall_ms=max(400, 12 * fl), switches=[]))
     # one bad endpoint must not affect the others of the same route
     for (cb, iob, fl) in sizes[:2]:
         sid += 1
@@ -237,6 +244,18 @@ def c07_scenarios(ctx):
         if name == "outage-during-unspooling":
             s["unspool_us"] = 500
         scns.append(s)
+    # dead-send (hook-gated, see dsGate in the driver): the connection dies after the relay's aliveness check at the
+    # top of an iteration but before that iteration hands its line over, and conn.In cannot take the line (writer
+    # held with a line in its hand, In full / unbuffered).  The line comes from dest.In or from the spool.
+    for src in ("in", "unspool"):
+        for cb in (0, 1, 2):
+            if src == "in":
+                steps = ["up", S(20), "settle", "dsarm in", "dshold 50", S(cb + 1), "dswait", S(5), "up", S(5)]
+            else:
+                steps = ["up", S(20), "settle", "down", S(cb + (40 if cb == 0 else 8)), "backlog %d" % (cb + 3),
+                         "dsarm unspool", "up", "dswait", S(5), "up", S(5)]
+            s = dict(base, id=len(scns) + 1, name="deadsend-%s-cb%d" % (src, cb), steps=steps, connbuf=cb, unspool_us=200)
+            scns.append(s)
     # seeded random schedules; small buffers included
     nrand = 3 if q else 24
     for j in range(nrand):
@@ -270,7 +289,7 @@ def c07_scenarios(ctx):
         tot = 0
         for st in s["steps"]:
             p = st.split()
-            if p[0] in ("send", "bg"):
+            if p[0] in ("send", "bg", "dshold"):
                 tot += int(p[1])
         s["nmax"] = tot + 10
     return scns
